@@ -18,10 +18,13 @@
     (`T14_par_tape_count`), so after any complete schedule the stream has advanced by the total
     number of drawing steps (`T14_par_tape_total`).
 
+  * with ONE worker job `j` gets the consecutive block after the blocks of the jobs before it
+    (`T14_par_tape_sequential_blocks`, closed form for every job list).
+
   Tie: tools/props/C14_parallel.py (suite PT: the real helpers under imposed schedules, the
   positions of the draws each job received compared with `tapeRun`).
 -/
-import QV.Proofs.ParallelTape
+import QV.Proofs.ParallelTapeSeq
 namespace QV.Props.C14
 open QV.Par
 
@@ -52,12 +55,39 @@ theorem T14_par_tape_count (progs : List (List Bool)) (sched : List Nat) (j : Na
     g.length = (p.take pc).count true :=
   (tapeRun_inv progs sched).count j p pc g hp hpc hg
 
+/-- a job that has finished has consumed exactly as many answers as it has drawing steps —
+under every schedule, whatever the other jobs did meanwhile. -/
+theorem T14_par_tape_finished_count (progs : List (List Bool)) (sched : List Nat) (j : Nat)
+    (p : List Bool) (g : List Nat) (hp : progs[j]? = some p)
+    (hpc : (tapeRun progs sched).pcs[j]? = some p.length)
+    (hg : (tapeRun progs sched).got[j]? = some g) : g.length = p.count true := by
+  have h := T14_par_tape_count progs sched j p p.length g hp hpc hg
+  rwa [List.take_length] at h
+
 /-- the stream advances by the number of answers handed out. -/
 theorem T14_par_tape_total (progs : List (List Bool)) (sched : List Nat) :
     (tapeRun progs sched).cursor = ((tapeRun progs sched).got.map List.length).sum := by
   have h := (T14_par_tape_partition progs sched).length_eq
   rw [List.length_range, List.length_flatten] at h
   exact h.symm
+
+/-- ONE worker (the plain loop, `tapeSeq`): job `j` is given the consecutive block of answers that
+starts after all answers of the jobs before it — for every job list of any length.  This is why
+`parallel_*` with one worker and a seed reproduces the plain loop with the same seed (searched on
+the real helpers: `parallel-seed:repeated-execution`), and with it
+`T14_par_tape_schedule_dependent` shows that more workers do not. -/
+theorem T14_par_tape_sequential_blocks (progs : List (List Bool)) :
+    (tapeRun progs (tapeSeq progs)).got =
+      (List.range progs.length).map fun j => List.range' (offset progs j) (draws (progs.getD j [])) :=
+  tapeSeq_closed progs
+
+/-- … and the stream has then advanced by the total number of drawing steps. -/
+theorem T14_par_tape_sequential_cursor (progs : List (List Bool)) :
+    (tapeRun progs (tapeSeq progs)).cursor = ((progs.map draws).sum) := by
+  rw [tapeSeq_cursor]; simp [offset]
+
+example : (tapeRun [[true, false, true], [true, true], [false], [true]]
+    (tapeSeq [[true, false, true], [true, true], [false], [true]])).got = [[0, 1], [2, 3], [], [4]] := by decide
 
 /-- the hypotheses are met by a run that does draw (non-vacuity), and the conclusion is tight. -/
 example : (tapeRun [[true, false, true], [true, true]] [1, 0, 0, 1, 0]).got = [[1, 3], [0, 2]] ∧
